@@ -9,7 +9,7 @@ from ..flow import Flow
 from ..model import AnalysisError, Cls, Func, Program, walk_own
 from ..report import Report
 from ..resolve import Scope, dotted
-from ..util import calls_in, returns_of, src
+from ..util import assigned_value, calls_in, returns_of, src
 from .c08 import ListFacts, SAT, _sat
 
 CACHES_MOD = "windpyutils.structures.caches"
@@ -448,8 +448,8 @@ class _ValueStored(Client):
         if ctx.func.cls is not self.cf.cls:
             return (state,)
         if kind == "store" and isinstance(node, ast.Attribute):
-            st = getattr(node, "_parent", None)
-            if isinstance(st, ast.Assign) and any(isinstance(n, ast.Name) and n.id == self.v for n in ast.walk(st.value)):
+            av = assigned_value(node)
+            if av is not None and any(isinstance(n, ast.Name) and n.id == self.v for n in ast.walk(av)):
                 return (True,)
         if kind in ("call", "construct") and isinstance(node, ast.Call):
             tgt_is_list = isinstance(node.func, ast.Attribute) and self.cf.is_list(node.func.value, ctx.func)
@@ -480,3 +480,24 @@ def rule_value_stored(prog, rep: Report, cf: CacheFacts, rule: str):
               f"parameter {v!r} stored on all paths",
               f"a path of __setitem__ ends without storing parameter {v!r} into a node payload",
               scenario="c[1]='a'; c[1]='b'; c[1] returns 'a' (the stale value)")
+
+
+def rule_list_ops(prog, rep: Report, cf: CacheFacts, rule: str):
+    """the linked-list operations the cache relies on are shape-correct (the C08.R4 analysis, run for exactly the
+    operations this cache calls): a cache is only as correct as the recency/frequency list under it"""
+    from . import c08_shape
+    rep.rule(rule, "list operations used by the cache are shape-correct: for every DoublyLinkedList operation the cache calls, "
+             "the shape analysis (all layouts, all lengths) shows consistent links and the reference order afterwards", floor=2)
+    used = []
+    for f in cf.cls.methods.values():
+        for c in calls_in(f.node):
+            if isinstance(c.func, ast.Attribute) and f.self_name and cf.is_list(c.func.value, f) and c.func.attr not in used:
+                used.append(c.func.attr)
+    for name in used:
+        m = cf.lf.lst.methods.get(name)
+        if m is None or name not in c08_shape.SPECS:
+            rep.unrec(rule, (cf.cls.relpath, f"{cf.cls.short}->{name}", cf.cls.node.lineno), f"listop:{name}",
+                      f"list operation {name} has no reference sequence in the shape analysis")
+            continue
+        rep.fn(m)
+        c08_shape.check_method(prog, rep, cf.lf, m, rule=rule, role=f"listop:{name}")
